@@ -1,24 +1,46 @@
 """C12 configuration for ./check (keys: see checks/propcfg.py)."""
 CFG = {
     "modules": ["VaxisModel.Props.C12", "VaxisModel.Witness.F112b"],
-    "extractors": ["C07", "C04"],
+    "extractors": ["C07", "C04", "C05", "C03"],
     "drivers": ["C12"],
     "stateful": True,
     "trivial_prefix": ("-", "bytes="),
     "rule": "end to end on the real code: a Vaxis whose console is the real embedded emulator (term.Model without PTY; bytes -> real "
             "ansi parser -> update(); the emulator's replies are the console input); the same frame histories as C01 "
-            "(bounded-exhaustive two-frame histories on 1x4 + random histories with resizes); per frame the emulator snapshot is "
-            "compared with the application's screen and cursor, and the cells Draw puts into a host Vaxis window with the "
-            "emulator grid; the detected capabilities are compared with what the emulator implements; non-trivial = an "
-            "emurender/emudraw/emucaps line; distinct by case op list",
-    "trusted_base": ["Spec.Expected (meaning of the application's screen), shadow reading of the emulator grid",
-                     "renderer theorems of C01/C07 at the emulator's capability set; emulator refinement is C06"],
-    "level_text": "Proved: emu_frames_vocabulary (every frame rendered under the capability set Vaxis detects inside the emulator uses only "
-                  "CUP, basic/256-colour SGR, OSC 8, raw text, mode 25, cursor shape, pointer shape) and emu_reference_display (C01 display "
-                  "theorem at that capability set). The composition with the real emulator is validated end to end on the implementation "
-                  "(real renderer bytes into the real emulator) on every frame of every generated history, as is Draw into a host window and "
-                  "the start-up reply exchange.",
-    "level_note": "The emulator half of the composition theorem is C06's refinement (in progress); until it is complete C12 rests on the "
-                  "end-to-end correspondence for the emulator side. Known finding F02 (wide glyph that does not fit) applies here too.",
+            "(bounded-exhaustive two-frame histories on 1x4 + random histories with resizes + scenario lp-semicolon); per frame "
+            "(1) emurender/emurefresh: the emulator snapshot against the application's screen and cursor (oracle on the implementation), "
+            "(2) emustate: THE COMPOSITION OF THE MODELS - renderer model (renderFrameC) -> wire (Model.C12Compose.opsOfToks) -> emulator "
+            "model (runOps) against the real emulator's full state, (3) emudraw: the cells Draw puts into a host Vaxis window; per session "
+            "(every 8th) emuquery/emucaps: every start-up sequence with the real reply against Model.C12Replies.replies, the derived "
+            "capabilities (C03's handleSequence model on the modelled replies) against the detected ones, startupQueries against what "
+            "Vaxis really wrote; non-trivial = an emurender/emustate/emudraw/emuquery/emucaps line; distinct by case op list",
+    "trusted_base": ["Spec.Expected (meaning of the application's screen), Shows/CellRel/HostRel (what 'the emulator cell shows the "
+                     "display cell' means; erased cell = default-style space with the stored background; shadow reading under wide glyphs)",
+                     "the wire Model.C12Compose.opsOf (tokens -> parsed sequences; validated per frame by the composition stream)",
+                     "renderer model and Spec.Display theorems of C01 (history of Ready terminals, bad = none), emulator model of C05, "
+                     "C06's exact-result lemmas for print and sgr_pen, C03's handleSequence model"],
+    "level_text": "Proved over the composed models, for ALL frame histories: emu_shows_application / emu_shows_application_now - from any "
+                  "emulator state showing the blank screen with the cursor hidden (one exists for every size 1x1..65535^2: emu_start_related), "
+                  "for every history of admissible frames rendered under the capability set detected inside the emulator (first frame a "
+                  "refresh), feeding the emulator model the parsed sequences of the renderer model's tokens never panics and after every frame "
+                  "the emulator's active grid shows the application's screen cell for cell (grapheme bytes, width, displayed colours and "
+                  "attributes, underline, hyperlink URL and parameters; cells under a wide glyph by shadowing; a glyph that does not fit = "
+                  "blank in its style, the renderer as repaired by 990e1a4) and the cursor is hidden or visible at the requested position and "
+                  "shape. draw_reproduces_screen / draw_shows_cursor: Draw into a host window of the same size makes exactly one SetCell per "
+                  "glyph cell, carrying a cell that shows it, at the same coordinates, and shows the application's cursor. emu_caps_exact: from "
+                  "any emulator state the model's replies to sendQueries() are DECRPM 2026->0, 2027->3, 2031->0, CPR 1;1, (OSC 11 iff host "
+                  "known), DA1 ?62;4;22c, and C03's model of handleSequence/New() derives exactly sixels + unicodeCore (+osc11) - the renderer "
+                  "capabilities are emuCaps; undetected_is_ignored: modes 2026/2031/2048, kitty keyboard CSI u and the OSC 66 probe are "
+                  "no-ops of the emulator model. emu_frames_vocabulary, emu_reference_display (round 1).",
+    "level_note": "Hypotheses (explicit, with non-vacuity examples): C01's FrameInOkC; every grapheme has width <= 2 and, if its width is "
+                  "positive, at least one byte; no ';' in hyperlink parameter strings (necessary: known finding F112b, Witness/F112b, replayed on "
+                  "the real code by scenario lp-semicolon); cursor shape value <= 65535; the emulator's parser gives a grapheme the width "
+                  "Vaxis' characterWidth gives it and one cell's text is one cluster (parameters; validated per frame by the composition "
+                  "stream). The theorems are over the models; the models are tied to the code per frame by the composition stream (full "
+                  "emulator state), per start-up by the reply-exchange stream, and by the C01/C05/C03 streams. Sixel graphics behind DA1 "
+                  "attribute 4 are outside the emulator model (modelled-not-verified). A resize inside a history restarts the theorem at the "
+                  "new size (the host resizes the emulator first). F02 was repaired in /repo by the C01 builder; the oracle follows.",
     "assumptions": ["the host resizes the emulator before the application is told about a new size"],
+    "technique": "Lean 4 proof (simulation Spec.Display ~ emulator model per renderer token, induction over frame histories; kernel "
+                 "evaluation of the reply exchange with a symbolic emulator state) + correspondence of the composed models with the real code",
 }
